@@ -189,15 +189,16 @@ def cex_props(res):
     if exp == 'no panic':
         return ['C03']
     if exp.startswith('well-formed UTF-8 in every string the library hands out'):
-        # a string taken from the library is not UTF-8: C02, whatever else the driver was looking for (and the editing /
-        # carriage property the session was filtered to, whose ideal counterpart never holds ill-formed text)
-        return ['C02'] + ([d.split(':')[1]] if ':' in d and d.split(':')[1] in ('C05', 'C17', 'C03') else [])
+        # a string taken from the library is not UTF-8: C02, whatever else the driver was looking for; C03, because such a
+        # string can only come out of an unchecked constructor whose precondition did not hold (and the editing / carriage
+        # property the session was filtered to, whose ideal counterpart never holds ill-formed text)
+        return ['C02', 'C03'] + ([d.split(':')[1]] if ':' in d and d.split(':')[1] in ('C05', 'C17') else [])
     if ':' in d:
         return [d.split(':')[1]]
     if d == 'decoder':
-        return ['C02'] if 'ill-formed' in act else ['C04']
+        return ['C02', 'C03'] if 'ill-formed' in act else ['C04']
     if d == 'scalars':
-        return ['C17', 'C02'] if 'ill-formed' in act else ['C17']
+        return ['C17', 'C02', 'C03'] if 'ill-formed' in act else ['C17']
     if d == 'utils':
         for k, v in (('char_count', ['C05', 'C17']), ('char_byte_index', ['C05', 'C17']), ('char_pop_front', ['C08', 'C17']),
                      ('trim_start', ['C11']), ('common_prefix_len', ['C11', 'C17']), ('encode_utf8', ['C17'])):
